@@ -163,7 +163,9 @@ func (k *c13) compare(code, origin string) {
 	}
 	// the verdict on the code as entered (normalised, then validated) must be the
 	// oracle's verdict on what normalisation produced
-	if pg, n, pp := pipelineValid(cc, code); pp == nil && n != code && oracleUnsure(cc, n) == "" {
+	if pg, n, pp := pipelineValid(cc, code); pp == nil && n != code && n != "" && oracleUnsure(cc, n) == "" {
+		// (a candidate that is nothing but the country prefix normalises to the empty
+		// code, which means "no code" and is not judged)
 		k.cnt("normalisation_rewrote_candidate")
 		if pg != k.sc.Valid(n) {
 			k.c.R.Fail(fmt.Sprintf("%s:pipeline-verdict:%s", cc, origin), fmt.Sprintf("%s code %q normalises to %q, which the library judges valid=%v and the national rule valid=%v", cc, code, n, pg, k.sc.Valid(n)), map[string]any{"country": cc, "code": code, "normalized": n})
